@@ -90,6 +90,9 @@ func withinBudget(name, h string) bool {
 	return true
 }
 
+// key lengths assumed by the Coq no-panic theorems (Schemes/NoPanic.v)
+var c05KeyLen = map[string]int{"md5": 16, "sha256": 32, "sha512": 64, "sha1": 21, "sunmd5": 16, "des": 8, "desext": 8, "bcrypt": 23, "nthash": 16}
+
 func mutate(r *rng, h string) string {
 	b := []byte(h)
 	n := 1 + r.intn(3)
@@ -209,8 +212,15 @@ func corrC05(outDir string, seed uint64, tier string, replay string) *report {
 				if s.name == "nthash" {
 					a.pw = r.bytes(2 * r.intn(150))
 				}
-				pan, hung := guarded(func() { keyOf(a) })
+				var key []byte
+				var kerr error
+				pan, hung := guarded(func() { key, kerr = keyOf(a) })
 				bad(s.name+".Key", fmt.Sprintf("password_len=%d salt=%q nums=%v opts=%v/%q", len(a.pw), a.salt, a.nums, a.hasOpts, a.prefix), pan, hung)
+				// hypothesis of the C05_check_* theorems: the derivation's output length is the scheme's constant
+				if want, ok := c05KeyLen[s.name]; ok && pan == nil && !hung && kerr == nil && len(key) != want {
+					rep.fail(fmt.Sprintf("%s.Key password_len=%d salt=%q nums=%v", s.name, len(a.pw), a.salt, a.nums),
+						fmt.Sprint("a key of ", want, " bytes"), fmt.Sprint(len(key), " bytes"), "Key output length differs from the scheme's constant (hypothesis of the no-panic theorems)")
+				}
 				pwS := string(a.pw)
 				if s.name == "des" && len(pwS) > 8 {
 					pwS = pwS[:8]
